@@ -217,6 +217,8 @@ struct ScopeOb {
     text: String,
     /// identifier whose mention in a tail expression forces the X7 let-wrap
     watch: Option<String>,
+    /// the obligation must run after the tail expression has been evaluated (temporary guard)
+    force_wrap: bool,
 }
 
 pub struct FnWeaver<'a> {
@@ -237,6 +239,7 @@ pub struct FnWeaver<'a> {
     call_counts: BTreeMap<String, usize>,
     has_fx: bool,
     vacuity: bool,
+    pub saw_plain_lend: bool,
 }
 
 impl<'a> FnWeaver<'a> {
@@ -445,17 +448,27 @@ impl<'a> FnWeaver<'a> {
         // pass A: calls, loops
         let mut a = PassA { w: self };
         a.visit_block(block);
+        if self.saw_plain_lend {
+            let body = &self.src[lo(block.span())..hi(block.span())];
+            if body.contains("forget") || body.contains("ManuallyDrop") {
+                fatal(&format!("{}: unsupported ownership idiom: a plain local is lent through KanalPtr::new_from together with mem::forget / ManuallyDrop (O-slot-manual cannot decide it)", self.func));
+            }
+        }
         // pass B: scopes / exits
         let mut pre = vec![];
+        for g in self.c.exit_ghost.clone().iter() {
+            let t = self.subst(g);
+            pre.push(ScopeOb { text: format!(" {} ", t), watch: None, force_wrap: false });
+        }
         if self.vacuity {
             let cl = Clause { id: "VACUITY".into(), props: vec![], text: "false".into() };
             let t = self.clause_text(&cl, "vacuity");
-            pre.push(ScopeOb { text: format!(" assert({}); ", t), watch: None });
+            pre.push(ScopeOb { text: format!("\n assert({});\n", t), watch: None, force_wrap: false });
         }
         self.walk_block(block, &vec![], &vec![], pre, true);
         // all binds must have been found
         for b in self.c.binds.iter() {
-            if !self.binds.contains_key(&b.var) {
+            if !self.binds.contains_key(&b.var) && !(b.optional && self.saw_plain_lend) {
                 fatal(&format!("{}: lost anchor: bind {} ({} {}) not found in {}", self.func, b.var, b.how, b.pat, self.file));
             }
         }
@@ -537,7 +550,7 @@ impl<'a> FnWeaver<'a> {
         if obs.is_empty() {
             return;
         }
-        let mut needs_wrap = false;
+        let mut needs_wrap = r.expr.is_some() && obs.iter().any(|o| o.force_wrap);
         if let Some(e) = &r.expr {
             for o in obs.iter() {
                 if let Some(w) = &o.watch {
@@ -625,7 +638,7 @@ impl<'a> FnWeaver<'a> {
             _ => {
                 self.walk_expr(e, active);
                 let text: String = obs.iter().rev().map(|o| o.text.clone()).collect();
-                let mut wrap = false;
+                let mut wrap = obs.iter().any(|o| o.force_wrap);
                 for o in obs.iter() {
                     if let Some(w) = &o.watch {
                         if expr_mentions_ident(e, w) {
@@ -654,12 +667,22 @@ impl<'a> FnWeaver<'a> {
             self.walk_expr(&el.expr, active);
             if self.is_try_guard_call(&el.expr) {
                 if let Some(n) = some_pat_ident(&el.pat) {
-                    return vec![ScopeOb { text: self.guard_release_text(&n), watch: Some(n) }];
+                    return vec![ScopeOb { text: self.guard_release_text(&n), watch: Some(n), force_wrap: false }];
                 }
             }
             vec![]
         } else {
             self.walk_expr(&ei.cond, active);
+            if self.has_fx && temp_guard_in(&ei.cond, &self.unit.guard_fns) {
+                // the temporary guard of an `if` condition dies before either branch runs
+                let t = " proof { fx.held = false; } ".to_string();
+                self.ghost(hi(ei.then_branch.brace_token.span.open()), t.clone(), -5);
+                match ei.else_branch.as_ref().map(|(_, b)| &**b) {
+                    Some(syn::Expr::Block(b)) => self.ghost(hi(b.block.brace_token.span.open()), t, -5),
+                    Some(_) => fatal(&format!("{}: temporary guard in the condition of an if / else-if chain is not supported", self.func)),
+                    None => self.ghost(hi(ei.span()), t, 7),
+                }
+            }
             vec![]
         }
     }
@@ -684,13 +707,17 @@ impl<'a> FnWeaver<'a> {
             _ => return out,
         };
         if self.is_guard_call(&init.expr) && self.has_fx {
-            out.push(ScopeOb { text: self.guard_release_text(&name), watch: Some(name.clone()) });
+            out.push(ScopeOb { text: self.guard_release_text(&name), watch: Some(name.clone()), force_wrap: false });
         }
         let eas = self.c.exit_asserts.clone();
         for ea in eas.iter() {
+            let unbound = self.c.binds.iter().any(|b| b.optional && !self.binds.contains_key(&b.var) && ea.clause.text.contains(b.var.as_str()));
+            if unbound {
+                continue;
+            }
             if self.binds.get(&ea.var) == Some(&name) && self.bind_matches_local(&ea.var, l) {
-                let t = self.clause_text(&ea.clause, "exit-assert");
-                out.push(ScopeOb { text: format!(" assert({}); ", t), watch: None });
+                let t = self.clause_text(&ea.clause, "exit-assert").replace("$exitval", "r__");
+                out.push(ScopeOb { text: format!("\n assert({});\n", t), watch: None, force_wrap: ea.on_ret });
             }
         }
         // hints: after-let $x
@@ -732,9 +759,14 @@ impl<'a> FnWeaver<'a> {
         let mut local: Vec<ScopeOb> = pre;
         let n = b.stmts.len();
         let mut placed_tail = false;
+        // guards moved into `drop(..)` earlier in this block: they are dead, nothing is recorded for them any more
+        let mut killed: Vec<String> = vec![];
+        let alive = |v: &Vec<ScopeOb>, killed: &Vec<String>| -> Vec<ScopeOb> {
+            v.iter().filter(|o| !(o.watch.is_some() && killed.contains(o.watch.as_ref().unwrap()))).cloned().collect()
+        };
         for (i, st) in b.stmts.iter().enumerate() {
-            let mut act = active.clone();
-            act.extend(local.iter().cloned());
+            let mut act = alive(active, &killed);
+            act.extend(alive(&local, &killed));
             let last = i + 1 == n;
             match st {
                 syn::Stmt::Local(l) => {
@@ -746,11 +778,22 @@ impl<'a> FnWeaver<'a> {
                     }
                     let started = self.local_scope_obs(l);
                     local.extend(started);
+                    if let Some(init) = &l.init {
+                        if self.has_fx && !self.is_guard_call(&init.expr) && temp_guard_in(&init.expr, &self.unit.guard_fns) {
+                            self.ghost(hi(l.span()), " proof { fx.held = false; } ".into(), 7);
+                        }
+                    }
                 }
                 syn::Stmt::Expr(e, semi) => {
+                    if self.has_fx && semi.is_some() && temp_guard_in(e, &self.unit.guard_fns) {
+                        self.ghost(hi(st.span()), " proof { fx.held = false; } ".into(), 7);
+                    }
                     if last && semi.is_none() {
-                        let mut obs = tail_obs.clone();
-                        obs.extend(local.iter().cloned());
+                        let mut obs = alive(tail_obs, &killed);
+                        obs.extend(alive(&local, &killed));
+                        if self.has_fx && temp_guard_in(e, &self.unit.guard_fns) {
+                            obs.push(ScopeOb { text: " proof { fx.held = false; } ".into(), watch: None, force_wrap: true });
+                        }
                         // at a tail `return` all active obligations apply
                         self.place_tail(e, &obs, &act, true);
                         placed_tail = true;
@@ -770,6 +813,7 @@ impl<'a> FnWeaver<'a> {
                                         let t = self.guard_release_text(&id);
                                         self.ghost(lo(e.span()), t, 0);
                                         handled = true;
+                                        killed.push(id.clone());
                                     }
                                 }
                             }
@@ -785,8 +829,8 @@ impl<'a> FnWeaver<'a> {
             }
         }
         if !placed_tail {
-            let mut obs = tail_obs.clone();
-            obs.extend(local.iter().cloned());
+            let mut obs = alive(tail_obs, &killed);
+            obs.extend(alive(&local, &killed));
             if !obs.is_empty() {
                 // does the block end in a diverging statement (return / panic)? then nothing falls out
                 let diverges = match b.stmts.last() {
@@ -802,6 +846,37 @@ impl<'a> FnWeaver<'a> {
             }
         }
     }
+}
+
+/// Does `e` contain a call of a guard function whose temporary lives to the end of the enclosing
+/// statement (i.e. not inside a nested block / closure / `if` / loop, which are their own drop scopes)?
+fn temp_guard_in(e: &syn::Expr, guard_fns: &[String]) -> bool {
+    struct V<'a> {
+        g: &'a [String],
+        found: bool,
+    }
+    impl<'a, 'ast> Visit<'ast> for V<'a> {
+        fn visit_expr_call(&mut self, c: &'ast syn::ExprCall) {
+            if let syn::Expr::Path(p) = &*c.func {
+                if let Some(seg) = p.path.segments.last() {
+                    if self.g.iter().any(|g| seg.ident == g) {
+                        self.found = true;
+                    }
+                }
+            }
+            syn::visit::visit_expr_call(self, c);
+        }
+        fn visit_block(&mut self, _: &'ast syn::Block) {}
+        fn visit_expr_closure(&mut self, _: &'ast syn::ExprClosure) {}
+        fn visit_expr_if(&mut self, _: &'ast syn::ExprIf) {}
+        fn visit_expr_while(&mut self, _: &'ast syn::ExprWhile) {}
+        fn visit_expr_loop(&mut self, _: &'ast syn::ExprLoop) {}
+        fn visit_expr_for_loop(&mut self, _: &'ast syn::ExprForLoop) {}
+        fn visit_arm(&mut self, _: &'ast syn::Arm) {}
+    }
+    let mut v = V { g: guard_fns, found: false };
+    v.visit_expr(e);
+    v.found
 }
 
 fn chain_has_final_else(ei: &syn::ExprIf) -> bool {
@@ -852,6 +927,13 @@ impl<'x, 'a> PassA<'x, 'a> {
                 match ws[0] {
                     "before-call" => self.w.ghost(start, format!(" {} ", t), -1),
                     "after-call" => self.w.ghost(end, format!(" {} ", t), 8),
+                    "after-stmt" => {
+                        // after the `;` that ends the statement containing the call
+                        match self.w.src[end..].find(';') {
+                            Some(k) => self.w.ghost(end + k + 1, format!(" {} ", t), 8),
+                            None => fatal("after-stmt hint: no `;` after the call"),
+                        }
+                    }
                     _ => {}
                 }
             }
@@ -908,6 +990,21 @@ impl<'x, 'a, 'ast> Visit<'ast> for PassA<'x, 'a> {
         if let syn::Expr::Path(p) = &*c.func {
             if let Some(seg) = p.path.segments.last() {
                 let name = seg.ident.to_string();
+                // X9: KanalPtr::new_from(&mut <plain local>) : the implicit `&mut T -> *mut T` coercion is
+                // unreadable for Verus; route it through the prelude's `lend_plain_local`, whose result is
+                // *not* a manually managed slot (so O-slot-manual decides whether lending it is allowed)
+                if seg.ident == "new_from" && c.args.len() == 1 {
+                    if let syn::Expr::Reference(r) = &c.args[0] {
+                        if r.mutability.is_some() {
+                            if let syn::Expr::Path(_) = &*r.expr {
+                                let a = &c.args[0];
+                                let t = format!("lend_plain_local({})", &self.w.src[lo(a.span())..hi(a.span())]);
+                                self.w.rewrite("X9", lo(a.span()), hi(a.span()), t);
+                                self.w.saw_plain_lend = true;
+                            }
+                        }
+                    }
+                }
                 // X3: Box::pin(E) -> PinBox::new(E)
                 let ptxt: String = self.w.src[lo(p.span())..hi(p.span())].chars().filter(|c| !c.is_whitespace()).collect();
                 if ptxt == "Box::pin" {
@@ -1051,6 +1148,7 @@ pub fn new_weaver<'a>(src: &'a str, file: &'a str, func: String, c: &'a FnContra
         call_counts: BTreeMap::new(),
         has_fx: c.fx,
         vacuity: false,
+        saw_plain_lend: false,
     }
 }
 
